@@ -51,13 +51,13 @@ def writer_field(nm, e, num, w, base_arg):
     return None, None
 
 
-def run_writer_content(chk, F, fs, rule="W6.content", names=("write_bits", "write_unary", "flush_be", "flush_le"), widths=None):
+def run_writer_content(chk, F, fs, rule="W6.content", names=("write_bits", "write_unary", "flush"), widths=None):
     C = seq_contracts()
     for spec in rn.writer_specs():
         nm = spec.key.split(".")[-1]
         if nm not in names or spec.group is not None:
             continue
-        e = "be" if (".be." in spec.key or spec.key.endswith("flush_be")) else "le"
+        e = "be" if ".be." in spec.key else "le"
         base_arg = spec.self_base
         BUF = ("field", ("deref", base_arg), "buffer")
         SPACE = ("field", ("deref", base_arg), "space_left_in_buffer")
